@@ -16,12 +16,13 @@ RULE = ('Four generated families. constant: q0 from the shared mixture, rate |w|
         'step of order k in 0..6 must be within 2 (x/2)^(k+1)/(k+1)! e^(x/2)+1e-15 (x=|w|dt) of the closed form and never worse '
         'than order k-1 (both also checked against an own truncated-exponential model). dead_reckoning: with a null '
         'accelerometer sample Madgwick.updateIMU/updateMARG and Mahony.updateIMU/updateMARG must equal normalise(q + q(x)(0,w) '
-        'dt/2), AQUA.updateIMU/updateMARG normalise(q - (0,w)(x)q dt/2), EKF.f and ROLEQ.attitude_propagation the former (1e-12). '
+        'dt/2), AQUA.updateIMU/updateMARG normalise(q - (0,w)(x)q dt/2), EKF.f and ROLEQ.attitude_propagation the former (1e-12), on '
+        'fresh instances and on instances that carry state (0, 3 or 25 ordinary updates before, Mahony built with a bias b0). '
         'recover: angular_velocities(dt) of a smooth quaternion sequence fed to closed-form AngularRate reproduces the sequence '
         'within sum(theta_i^3)/24 + 1e-12. Non-trivial: x >= 1e-3 and n >= 10 (constant), k >= 2 (series); distinct = case hash.')
 ASSUMPTIONS = ['the batch AngularRate constructor does not use its first gyroscope row (documented behaviour)',
                'tolerances: pure algebra 1e-12; series bound = Lagrange remainder of the truncated exponential, doubled for the renormalisation']
-REQUIRED_LABELS = ['series:order>=2', 'constant:n>=100', 'dead_reckoning:ok']
+REQUIRED_LABELS = ['series:order>=2', 'constant:n>=100', 'dead_reckoning:ok', 'dead_reckoning:warm=25']
 
 
 def _rate():
@@ -147,7 +148,9 @@ def eval_series(case, ctx):
 
 def _dr_case():
     return st.fixed_dictionaries({'q': gen.unit_quaternions(allow_denormal=False), 'rate': _rate(), 'dt': _dt(),
-                                  'mag': gen.vectors3(-1, 2), 'frame': st.sampled_from(['NED', 'ENU'])})
+                                  'mag': gen.vectors3(-1, 2), 'frame': st.sampled_from(['NED', 'ENU']),
+                                  'warm': st.sampled_from([0, 0, 3, 25]), 'acc_w': gen.vectors3(0, 1), 'gyr_w': gen.vectors3(-2, 0),
+                                  'b0': st.one_of(st.none(), st.lists(gen.fl(-0.05, 0.05), min_size=3, max_size=3))})
 
 
 def eval_dr(case, ctx):
@@ -159,36 +162,68 @@ def eval_dr(case, ctx):
     dt = float(case['dt'])
     mag = np.array(case['mag'], dtype=float)
     zero = np.zeros(3)
-    body = oracle.step_first_order_body(q, w, dt)
-    aqua = oracle.step_first_order_aqua(q, w, dt)
-    ctx.label('ok')
-    ctx.nt(True)
+    warm = int(case.get('warm', 0))
+    acc_w = np.array(case.get('acc_w', [0.0, 0.0, 9.81]), dtype=float)
+    gyr_w = np.array(case.get('gyr_w', [0.01, 0.02, -0.01]), dtype=float)
+    b0 = case.get('b0')
+    ctx.label('ok', f'warm={warm}')
+    ctx.nt(warm > 0 or b0 is not None)
+
+    def warmed(obj, step):
+        """The dead-reckoning step must not depend on what the instance has processed before (bias integrators, adaptive
+        gains, covariances): run `warm` ordinary updates first, then the null-accelerometer step from the resulting q."""
+        qq = np.array(q)
+        for _ in range(warm):
+            qq = np.array(np.asarray(step(obj, qq, gyr_w, acc_w, mag)), dtype=float)
+            qq = qq/np.linalg.norm(qq)
+        return qq
+
+    def dr(make, step, null_step, conv):
+        def run():
+            obj = make()
+            try:
+                qq = warmed(obj, step)
+            except Exception:
+                return None         # the ordinary warm-up updates are C03's business (e.g. AQUA with gravity exactly opposite)
+            if not np.all(np.isfinite(qq)):
+                return None
+            out = np.asarray(null_step(obj, qq), dtype=float)
+            ref = (oracle.step_first_order_body if conv == 'body' else oracle.step_first_order_aqua)(qq, w, dt)
+            alt = (oracle.step_first_order_aqua if conv == 'body' else oracle.step_first_order_body)(qq, w, dt)
+            return out, ref, alt
+        return run
+
+    mah_kw = {} if b0 is None else {'b0': np.array(b0, dtype=float)}
     routes = [
-        ('Madgwick.updateIMU', lambda: Madgwick(Dt=dt).updateIMU(np.array(q), np.array(w), np.array(zero)), body),
-        ('Madgwick.updateMARG', lambda: Madgwick(Dt=dt).updateMARG(np.array(q), np.array(w), np.array(zero), np.array(mag)), body),
-        ('Madgwick.updateIMU[dt=]', lambda: Madgwick(Dt=3.0).updateIMU(np.array(q), np.array(w), np.array(zero), dt=dt), body),
-        ('Mahony.updateIMU', lambda: Mahony(Dt=dt).updateIMU(np.array(q), np.array(w), np.array(zero)), body),
-        ('Mahony.updateMARG', lambda: Mahony(Dt=dt).updateMARG(np.array(q), np.array(w), np.array(zero), np.array(mag)), body),
-        ('Mahony.updateIMU[frequency=]', lambda: Mahony(frequency=1.0/dt).updateIMU(np.array(q), np.array(w), np.array(zero)), body),
-        ('AQUA.updateIMU', lambda: AQUA(Dt=dt).updateIMU(np.array(q), np.array(w), np.array(zero)), aqua),
-        ('AQUA.updateMARG', lambda: AQUA(Dt=dt).updateMARG(np.array(q), np.array(w), np.array(zero), np.array(mag)), aqua),
-        ('EKF.f', lambda: EKF(magnetic_ref=60.0, frame=case['frame']).f(np.array(q), np.array(w), dt), body),
-        ('ROLEQ.attitude_propagation', lambda: ROLEQ(magnetic_ref=60.0, frame=case['frame']).attitude_propagation(np.array(q), np.array(w), dt), body),
+        ('Madgwick.updateIMU', dr(lambda: Madgwick(Dt=dt), lambda o, qq, g, a, m: o.updateIMU(qq, g, a), lambda o, qq: o.updateIMU(np.array(qq), np.array(w), np.array(zero)), 'body')),
+        ('Madgwick.updateMARG', dr(lambda: Madgwick(Dt=dt), lambda o, qq, g, a, m: o.updateMARG(qq, g, a, m), lambda o, qq: o.updateMARG(np.array(qq), np.array(w), np.array(zero), np.array(mag)), 'body')),
+        ('Madgwick.updateIMU[dt=]', dr(lambda: Madgwick(Dt=3.0), lambda o, qq, g, a, m: o.updateIMU(qq, g, a, dt=dt), lambda o, qq: o.updateIMU(np.array(qq), np.array(w), np.array(zero), dt=dt), 'body')),
+        ('Mahony.updateIMU', dr(lambda: Mahony(Dt=dt, **mah_kw), lambda o, qq, g, a, m: o.updateIMU(qq, g, a), lambda o, qq: o.updateIMU(np.array(qq), np.array(w), np.array(zero)), 'body')),
+        ('Mahony.updateMARG', dr(lambda: Mahony(Dt=dt, **mah_kw), lambda o, qq, g, a, m: o.updateMARG(qq, g, a, m), lambda o, qq: o.updateMARG(np.array(qq), np.array(w), np.array(zero), np.array(mag)), 'body')),
+        ('Mahony.updateIMU[frequency=]', dr(lambda: Mahony(frequency=1.0/dt, **mah_kw), lambda o, qq, g, a, m: o.updateIMU(qq, g, a), lambda o, qq: o.updateIMU(np.array(qq), np.array(w), np.array(zero)), 'body')),
+        ('AQUA.updateIMU', dr(lambda: AQUA(Dt=dt), lambda o, qq, g, a, m: o.updateIMU(qq, g, a), lambda o, qq: o.updateIMU(np.array(qq), np.array(w), np.array(zero)), 'aqua')),
+        ('AQUA.updateMARG', dr(lambda: AQUA(Dt=dt), lambda o, qq, g, a, m: o.updateMARG(qq, g, a, m), lambda o, qq: o.updateMARG(np.array(qq), np.array(w), np.array(zero), np.array(mag)), 'aqua')),
+        ('AQUA.updateMARG[adaptive]', dr(lambda: AQUA(Dt=dt, adaptive=True), lambda o, qq, g, a, m: o.updateMARG(qq, g, a, m), lambda o, qq: o.updateMARG(np.array(qq), np.array(w), np.array(zero), np.array(mag)), 'aqua')),
+        ('EKF.f', dr(lambda: EKF(magnetic_ref=60.0, frame=case['frame']), lambda o, qq, g, a, m: o.update(qq, g, a, m, dt=dt), lambda o, qq: o.f(np.array(qq), np.array(w), dt), 'body')),
+        ('ROLEQ.attitude_propagation', dr(lambda: ROLEQ(magnetic_ref=60.0, frame=case['frame']), lambda o, qq, g, a, m: o.update(qq, g, a, m, dt=dt), lambda o, qq: o.attitude_propagation(np.array(qq), np.array(w), dt), 'body')),
     ]
-    for name, f, ref in routes:
-        ok, r = ctx.call(name, f)
+    for name, run in routes:
+        ok, res = ctx.call(name, run)
         if not ok:
             continue
-        r = np.asarray(r, dtype=float)
+        if res is None:
+            ctx.label('warmup_failed')
+            continue
+        r, ref, other = res
         if r.shape != (4,) or not np.all(np.isfinite(r)):
             ctx.fail(f'{name}|bad', f'{r!r}')
             continue
         r = r/np.linalg.norm(r)
         tol = 1e-12 if 'frequency' not in name else 1e-12 + 1e-15*float(np.linalg.norm(w))
         if _err(r, ref) > tol:
-            other = aqua if ref is body else body
             kind = 'other_convention' if _err(r, other) <= 1e-12 else 'mismatch'
-            ctx.fail(f'{name}|{kind}', f'err {_err(r, ref):.3e} |w|dt={float(np.linalg.norm(w))*dt:.3e}')
+            state = 'fresh' if warm == 0 and (b0 is None or 'Mahony' not in name) else 'with_state'
+            ctx.fail(f'{name}|{kind}|{state}', f'err {_err(r, ref):.3e} |w|dt={float(np.linalg.norm(w))*dt:.3e} warm={warm} b0={b0}')
 
 
 def _recover_case():
